@@ -299,11 +299,48 @@ func claimPairing(c *Ctx) {
 			return instantiate(c, f, func(e ir.Effect) bool { return e.Method == method && ir.ModuleOf(e.Fn) == "stream" }, func(e ir.Effect) *ir.Expr { return w.ExprOf(e.Call.Common().Args[3]) })
 		}
 		feePays, recvPays := pay("SendCoinsFromModuleToModule"), pay("SendCoinsFromModuleToAccount")
-		if len(feePays) != 1 || len(recvPays) != 1 {
-			r.Bad("A3.claim-pairing", key+"|sites", w.Pos(f.Pos()), "the claim step pays the fee collector and the receiver, once each", fmt.Sprintf("%d fee payout(s), %d receiver payout(s)", len(feePays), len(recvPays)))
+		// (a payout may be written at several places, one per arm of a routing switch: they pay the same amount and no path
+		// passes two of them)
+		once := func(ps []Inst) string {
+			if len(ps) == 0 {
+				return "no such payout"
+			}
+			first := ""
+			for i, p := range ps {
+				a := canon(p.R).String()
+				if i == 0 {
+					first = a
+				} else if a != first {
+					return fmt.Sprintf("the payouts at %s and %s differ in amount", pos(c, ps[0].Eff.Site), pos(c, p.Eff.Site))
+				}
+			}
+			if len(ps) > 1 {
+				is := map[ssa.Instruction]bool{}
+				for _, p := range ps {
+					is[p.Eff.Site] = true
+				}
+				root := w.FlatRoot(f)
+				for _, occ := range w.FlatOccurrences(root, func(in ssa.Instruction) bool { return is[in] }) {
+					occ := occ
+					if hit := w.FlatReaches(root, &occ, nil, func(q ir.FPos) bool { return is[q.In] && !(q.In == occ.In && q.Ctx == occ.Ctx) }); hit != nil {
+						return fmt.Sprintf("a path pays at %s and again at %s", pos(c, occ.In), pos(c, hit.In))
+					}
+				}
+			}
+			return ""
+		}
+		if d1, d2 := once(feePays), once(recvPays); d1 != "" || d2 != "" {
+			r.Bad("A3.claim-pairing", key+"|sites", w.Pos(f.Pos()), "the claim step pays the fee collector and the receiver, once each", fmt.Sprintf("fee collector: %s; receiver: %s (%d fee payout site(s), %d receiver payout site(s))", d1, d2, len(feePays), len(recvPays)))
 			continue
 		}
 		feePay, recvPay := feePays[0], recvPays[0]
+		feeSites, recvSites := map[ssa.Instruction]bool{}, map[ssa.Instruction]bool{}
+		for _, p := range feePays {
+			feeSites[p.Eff.Site] = true
+		}
+		for _, p := range recvPays {
+			recvSites[p.Eff.Site] = true
+		}
 		// (what the payouts are when they execute: a verdict helper's empty results for the verdicts the step turns away do not count)
 		fee, rcv := one(feePay.R), one(recvPay.R)
 		split := func(e *ir.Expr, idx string) *ir.Expr {
@@ -353,17 +390,25 @@ func claimPairing(c *Ctx) {
 		for _, p := range []Inst{feePay, recvPay} {
 			amt := one(p.E)
 			zero := func(pr ir.Pred) bool {
-				if pr.Pol || pr.E.Op != "call" {
+				if pr.E.Op != "call" {
 					return false
 				}
 				same := func(x *ir.Expr) bool { return sameCoin(canon(x), amt) }
+				if pr.Pol {
+					// a coin without an amount pays nothing either
+					return calleeIs(pr.E, "types.Coin).IsNil") && len(pr.E.Args) == 1 && same(pr.E.Args[0])
+				}
 				amtOf := func(x *ir.Expr) bool { return amountOfCoin(canon(x), amt) }
 				return calleeIs(pr.E, "math.Int).GT") && len(pr.E.Args) == 2 && amtOf(pr.E.Args[0]) && isZeroInt(pr.E.Args[1]) ||
 					calleeIs(pr.E, "math.Int).IsPositive") && len(pr.E.Args) == 1 && amtOf(pr.E.Args[0]) ||
 					calleeIs(pr.E, "types.Coin).IsPositive") && len(pr.E.Args) == 1 && same(pr.E.Args[0])
 			}
 			site := p.Eff.Site
-			isPay := func(in ssa.Instruction) bool { return in == site }
+			sites := feeSites
+			if p.Eff.Method == recvPay.Eff.Method {
+				sites = recvSites
+			}
+			isPay := func(in ssa.Instruction) bool { return sites[in] }
 			bad := w.FlatMustPassM(f, isPay, zero)
 			r.Require(len(bad) == 0, "A3.claim-pairing", key+"|must-pay|"+p.Eff.Method, pos(c, site), "every successful claim performs this payout unless its amount is zero", fmt.Sprintf("%d success return(s) skip it", len(bad)))
 			r.Require(w.FlatPrecedesM(f, isPay, isSet, zero), "A3.claim-pairing", key+"|pay<store|"+p.Eff.Method, pos(c, site), "the deposit is reduced only after the payout succeeded", "the stream can be stored without the payout")
@@ -817,7 +862,7 @@ func C11(c *Ctx) {
 				es := w.EstablishedEdgesIn(cx, func(pr ir.Pred) bool {
 					e := pr.E
 					return !pr.Pol && calleeIs(e, method) && len(e.Args) == 2 && streamFieldX(c, e.Args[0], "DepositZeroTime") && isBlockTime(e.Args[1])
-				}, 0)
+				}, 2)
 				out := map[[2]int]bool{}
 				for k := range es {
 					out[k] = true
@@ -849,7 +894,7 @@ func C11(c *Ctx) {
 				}
 				return calleeIs(e, "time.Time).After") && streamFieldX(c, e.Args[0], "DepositZeroTime") && isBlockTime(e.Args[1]) ||
 					calleeIs(e, "time.Time).Before") && isBlockTime(e.Args[0]) && streamFieldX(c, e.Args[1], "DepositZeroTime")
-			}, 0) {
+			}, 2) {
 				cut[k] = true
 			}
 			return cut
@@ -906,7 +951,7 @@ func floorDivision(c *Ctx) {
 			}
 		}
 	}
-	r.Floor("truncating decimal operations in stream scope", n, 2)
+	r.Floor("truncating decimal operations in stream scope", n, 1)
 }
 
 // restartResetsOutflow (A3.restart-resets-outflow): whenever a stream's deposit-zero time is recomputed
@@ -956,7 +1001,39 @@ func restartResetsOutflow(c *Ctx, isClaimIn func(*ssa.Function) func(ssa.Instruc
 						}
 					}
 				}
+				// ... or by a helper (`fundedTo := fundedUntil(stream, now)`): judged from each return of the helper that hands
+				// back the block time, with what the walk knows at that return
+				var starts []ir.FPos
+				if _, isPhi := firstArg(call).(*ssa.Phi); !isPhi {
+					for _, a := range call.Call.Args {
+						if a.Type().String() != "time.Time" {
+							continue
+						}
+						alts := valueAlts(c, f, call, a)
+						if len(alts) < 2 {
+							continue
+						}
+						sites = nil
+						for _, alt := range alts {
+							if isBlockTime(alt.E) && !streamFieldX(c, alt.E, "DepositZeroTime") {
+								p := alt.Pos
+								p.Resume = true
+								starts = append(starts, p)
+							}
+						}
+					}
+				}
 				bad := ""
+				for _, st := range starts {
+					st := st
+					if wr := w.FlatReaches(root, &st, &ir.FlatCut{Barrier: reset}, func(p ir.FPos) bool { return isWrite(p.In) }); wr != nil {
+						// (a settlement that ran before the point of choice has reset the outflow time as well)
+						before := w.FlatReaches(root, nil, &ir.FlatCut{Barrier: reset}, func(p ir.FPos) bool { return p.Ctx == st.Ctx && p.In == st.In })
+						if before != nil {
+							bad = "the stream is stored at " + w.InstrPos(wr.In) + " with a deposit-zero time counted from now (chosen at " + w.InstrPos(st.In) + "), on a path with neither a settlement nor LastOutflowTime = block time"
+						}
+					}
+				}
 				for _, site := range sites {
 					site := site
 					// a restart that happens only while the stored deposit is positive (the remainder re-scheduled at a new rate)
@@ -1038,6 +1115,20 @@ func elapsedSeconds(c *Ctx) {
 				n++
 				if calleeIs(sec, "NewInt") && len(sec.Args) == 1 {
 					sec = sec.Args[0]
+				}
+				// the product may stand in a helper that is handed the seconds (streamedAmount(denom, rate, seconds)): what its
+				// caller in this package hands in
+				if se := stripConvE(sec); se.Op == "param" && g != f {
+					var alts []*ir.Expr
+					for _, ed := range w.Callers(g) {
+						cs, ok := ed.Site.(ssa.CallInstruction)
+						if ok && ir.FnPkg(cs.Parent()) == ir.FnPkg(f) {
+							alts = append(alts, w.ArgSubst(cs, g, se))
+						}
+					}
+					if len(alts) > 0 {
+						sec = ir.MkPhi(alts)
+					}
 				}
 				// the seconds may be computed by a helper of the same package (wholeSecondsBetween(last, now)): look inside
 				if se := stripConvE(sec); se.Op == "call" && se.Callee != nil && ir.FnPkg(se.Callee) == ir.FnPkg(f) {
@@ -1304,7 +1395,10 @@ var streamPanicReviewed = map[string]string{
 func C12(c *Ctx) {
 	w, r := c.W, c.R
 	r.Explanation = "(A10) panic-source inventory over every stream function reachable from the stream MsgServer and the stream messages' ValidateBasic: every explicit panic and every call of a panicking SDK API (TruncateInt64/Int64/Uint64, Coin.Sub/Add, NewCoin(s), NewDecCoinFromCoin, Quo*, ...) is enumerated from the resolved program; each site must either be guarded by the recognised dominating predicate (flow rate > 0 before division, deposit > claim before Sub, same denomination before Add, amount > 0 before NewCoins) or appear in the reviewed table keyed by function, API and ordinal with its reason; any other site — e.g. a newly added Int64() on a deposit-derived value — is a violation. Decides absence of unreviewed arithmetic panic sources, not liveness."
-	r.Rules = []string{"A10.panic-api", "A10.explicit-panic", "A2.panic-guard", "A10.implicit-panic"}
+	r.Rules = []string{"A10.panic-api", "A10.explicit-panic", "A2.panic-guard", "A10.implicit-panic", "A3.cancel-pairing"}
+	// a cancel returns the unreleased remainder: every successful cancel refunds the stored remaining deposit (after the
+	// settlement) and only then deletes the stream
+	cancelPairing(c)
 	r.Trusted = []string{"reasons recorded in the reviewed table (rate within [0,1] is C16's obligation)", "SDK arithmetic panics only as documented"}
 	r.NotDecided = []string{"that claim/cancel/top-up succeed (liveness)", "bank-side failures"}
 	scope := streamScope(c)
@@ -1350,8 +1444,14 @@ func C12(c *Ctx) {
 					continue
 				}
 				n++
-				ord[api]++
-				key := fmt.Sprintf("%s|%s|%d", fn(f), api, ord[api])
+				// (the conversions that panic outside the int64 range are one kind of site, whichever of them is written: a
+				// site keeps its identity when Dec.TruncateInt64 becomes Int.Int64 on the same quotient)
+				apiKey := api
+				if strings.Contains(panicAPIs[api], "does not fit int64") {
+					apiKey = "int64-range"
+				}
+				ord[apiKey]++
+				key := fmt.Sprintf("%s|%s|%d", fn(f), apiKey, ord[apiKey])
 				// 1. discharged by structure, wherever the call stands: a recognised dominating guard of the API's
 				//    kind, or a constant zero amount
 				class := ""
@@ -1503,7 +1603,12 @@ func panicGuard(c *Ctx, f *ssa.Function, call *ssa.Call, e *ir.Expr, kind string
 		}
 		amountOf := func(coin *ir.Expr) func(*ir.Expr) bool {
 			cs := w.Expand(coin, 4).String()
+			amt := ir.FieldOf(w.Expand(coin, 4), "Amount").String()
 			return func(x *ir.Expr) bool {
+				// (the amount of a coin chosen between alternatives is the choice between their amounts)
+				if x.Op == "phi" && (x.String() == amt || w.Expand(x, 4).String() == amt) {
+					return true
+				}
 				// (the comparison may stand in the helper that sized the claim: both sides are compared fully resolved)
 				return x.Op == "field" && x.Name == "Amount" && (x.Args[0].String() == coin.String() || w.Expand(x.Args[0], 4).String() == cs)
 			}
@@ -1514,7 +1619,13 @@ func panicGuard(c *Ctx, f *ssa.Function, call *ssa.Call, e *ir.Expr, kind string
 			// verdict the caller switched on: only the alternatives that agree with that verdict count)
 			a0, a1 = valueAtSite(c, f, call, args[0]), valueAtSite(c, f, call, args[1])
 		}
+		if os.Getenv("MCDEBUG") == "dgc" {
+			fmt.Fprintln(os.Stderr, "dgc a0:", a0.String(), "\n    a1:", a1.String(), "\n    a1x:", w.Expand(a1, 4).String())
+		}
 		return w.Guarded(f, call, func(p ir.Pred) bool {
+			if os.Getenv("MCDEBUG") == "dgc" {
+				fmt.Fprintln(os.Stderr, "dgc pred:", p.Pol, p.E.String())
+			}
 			// a > b or a >= b, written with any of the sdk.Int comparison methods, in either polarity / operand order
 			return intCmpIs(p, ">", amountOf(a0), amountOf(a1)) || intCmpIs(p, ">=", amountOf(a0), amountOf(a1))
 		}, 0)
@@ -1545,57 +1656,9 @@ func panicGuard(c *Ctx, f *ssa.Function, call *ssa.Call, e *ir.Expr, kind string
 		if !(calleeIs(sec, "NewInt") && len(sec.Args) == 1) {
 			return false
 		}
-		// the seconds value is a phi of {0, elapsed}: the elapsed operand may only flow in on an edge where elapsed >= 0
-		sv := sec.Args[0].V
-		ph, isPhi := sv.(*ssa.Phi)
-		if hc, isCall := sv.(*ssa.Call); isCall {
-			// the clamp was extracted into a helper (wholeSecondsBetween): each of its returns hands back the constant 0
-			// or a value that is >= 0 on the way to that return
-			if gs := w.CalleesOf(hc); len(gs) == 1 && len(gs[0].Blocks) > 0 && gs[0].Signature.Results().Len() == 1 {
-				g := gs[0]
-				for _, blk := range g.Blocks {
-					ret, ok := blk.Instrs[len(blk.Instrs)-1].(*ssa.Return)
-					if !ok {
-						continue
-					}
-					if cst, ok := ret.Results[0].(*ssa.Const); ok && cst.Value != nil && cst.Value.String() == "0" {
-						continue
-					}
-					rs := w.ExprOf(ret.Results[0]).String()
-					if !w.Guarded(g, ret, func(p ir.Pred) bool {
-						return cmpIs(p, ">=", func(x *ir.Expr) bool { return x.String() == rs }, func(y *ir.Expr) bool { return y.Op == "const" && y.Name == "0" })
-					}, 0) {
-						return false
-					}
-				}
-				return true
-			}
-		}
-		if !isPhi {
-			return w.Guarded(f, call, func(p ir.Pred) bool {
-				return cmpIs(p, ">=", func(x *ir.Expr) bool { return x.String() == sec.Args[0].String() }, func(y *ir.Expr) bool { return y.Op == "const" && y.Name == "0" })
-			}, 0)
-		}
-		for k, op := range ph.Edges {
-			if cst, ok := op.(*ssa.Const); ok && cst.Value != nil && cst.Value.String() == "0" {
-				continue
-			}
-			os := w.ExprOf(op).String()
-			edges := w.EstablishedEdges(f, func(p ir.Pred) bool {
-				return cmpIs(p, ">=", func(x *ir.Expr) bool { return x.String() == os }, func(y *ir.Expr) bool { return y.Op == "const" && y.Name == "0" })
-			}, 0)
-			pred := ph.Block().Preds[k]
-			okEdge := false
-			for si, su := range pred.Succs {
-				if su == ph.Block() && edges[[2]int{pred.Index, si}] {
-					okEdge = true
-				}
-			}
-			if !okEdge {
-				return false
-			}
-		}
-		return true
+		// the seconds value is a phi of {0, elapsed}: the elapsed operand may only flow in on an edge where elapsed >= 0;
+		// the clamp may stand in a helper (wholeSecondsBetween), and the product in another that is handed the seconds
+		return secondsNonNegative(c, f, call, sec.Args[0].V, sec.Args[0], 0)
 	case "amount>0":
 		var amt *ir.Expr
 		if len(e.Args) == 1 && e.Args[0].Op == "list" && len(e.Args[0].Args) == 1 {
@@ -1838,3 +1901,91 @@ const (
 	claimTotalSig    = "CalculateAmountToClaim;stored:StreamKeyPrefix.Deposit;stored:StreamKeyPrefix.DepositZeroTime;stored:StreamKeyPrefix.FlowRate;stored:StreamKeyPrefix.LastOutflowTime"
 	claimTotalSigFee = "CalculateAmountToClaim;stored:ParamsKey.ValidatorFee;stored:StreamKeyPrefix.Deposit;stored:StreamKeyPrefix.DepositZeroTime;stored:StreamKeyPrefix.FlowRate;stored:StreamKeyPrefix.LastOutflowTime"
 )
+
+// firstArg: the first operand of a call (the receiver of a method call), nil when it has none.
+func firstArg(call *ssa.Call) ssa.Value {
+	if len(call.Call.Args) == 0 {
+		return nil
+	}
+	return call.Call.Args[0]
+}
+
+// secondsNonNegative: the value sv, used at instruction `at` of fn, is >= 0 on every path: the constant 0, a value tested
+// >= 0 on the way, a choice between such values, what a helper hands back (each of its returns judged so), or a parameter
+// for which every caller hands in such a value.
+func secondsNonNegative(c *Ctx, fn *ssa.Function, at ssa.Instruction, sv ssa.Value, se *ir.Expr, depth int) bool {
+	w := c.W
+	if depth > 4 || sv == nil {
+		return false
+	}
+	geZero := func(text string) ir.Matcher {
+		return func(p ir.Pred) bool {
+			return cmpIs(p, ">=", func(x *ir.Expr) bool { return x.String() == text }, func(y *ir.Expr) bool { return y.Op == "const" && y.Name == "0" })
+		}
+	}
+	switch x := sv.(type) {
+	case *ssa.Const:
+		return x.Value != nil && x.Value.String() == "0"
+	case *ssa.Parameter:
+		idx := -1
+		for i, p := range fn.Params {
+			if p == x {
+				idx = i
+			}
+		}
+		callers := w.Callers(fn)
+		if idx < 0 || len(callers) == 0 {
+			return false
+		}
+		for _, ed := range callers {
+			cs, ok := ed.Site.(ssa.CallInstruction)
+			if !ok || cs.Common().IsInvoke() || idx >= len(cs.Common().Args) {
+				return false
+			}
+			a := cs.Common().Args[idx]
+			if !secondsNonNegative(c, cs.Parent(), cs, a, w.ExprOf(a), depth+1) {
+				return false
+			}
+		}
+		return true
+	case *ssa.Call:
+		gs := w.CalleesOf(x)
+		if len(gs) != 1 || len(gs[0].Blocks) == 0 || gs[0].Signature.Results().Len() != 1 {
+			return false
+		}
+		g := gs[0]
+		for _, blk := range g.Blocks {
+			ret, ok := blk.Instrs[len(blk.Instrs)-1].(*ssa.Return)
+			if !ok {
+				continue
+			}
+			if !secondsNonNegative(c, g, ret, ret.Results[0], w.ExprOf(ret.Results[0]), depth+1) {
+				return false
+			}
+		}
+		return true
+	case *ssa.Phi:
+		for k, op := range x.Edges {
+			if cst, ok := op.(*ssa.Const); ok && cst.Value != nil && cst.Value.String() == "0" {
+				continue
+			}
+			edges := w.EstablishedEdges(fn, geZero(w.ExprOf(op).String()), 0)
+			pred := x.Block().Preds[k]
+			okEdge := false
+			for si, su := range pred.Succs {
+				if su == x.Block() && edges[[2]int{pred.Index, si}] {
+					okEdge = true
+				}
+			}
+			if !okEdge {
+				return false
+			}
+		}
+		return true
+	}
+	text := ""
+	if se != nil {
+		text = se.String()
+	}
+	return text != "" && w.Guarded(fn, at, geZero(text), 0)
+}
